@@ -304,6 +304,30 @@ def more_histories(real, d, markers, layout, res):
             check_name(d, name, markers, res, case, 'read_input_file', l2t=conv)
             check_name(d, name, markers, res, case, 'input', l2t=conv)
         res.label('history:directory-switched')
+    # (a') two converter objects in one process: the first is configured on the input directory
+    # (strict); afterwards a second one is configured on an outside directory, once strict, once
+    # not, and used; the first one's answers are its own
+    for other_strict in (True, False):
+        conv = LatexNodes2Text()
+        try:
+            conv.set_tex_input_directory(d, strict_input=True)
+            other = LatexNodes2Text()
+            other.set_tex_input_directory(out_dir, strict_input=other_strict)
+            other.read_input_file('q.tex')
+            other.latex_to_text('\\input{q}')
+            third = LatexNodes2Text()        # (never configured at all)
+            third.latex_to_text('\\input{q}')
+        except (IOError, OSError):
+            pass
+        except Exception as e:
+            res.fail(exc_key(e), exc_detail(e), {'layout': lay, 'via': 'history:other-converter'})
+            continue
+        for name in ('q.tex', 'q', 'r', 'a.tex', 'a', '../out/q.tex', os.path.join(real, 'out', 'q.tex')):
+            case = {'layout': dict(lay, names=[[name.split('/'), None]]),
+                    'via': 'history:other-converter', 'how': other_strict}
+            check_name(d, name, markers, res, case, 'read_input_file', l2t=conv)
+            check_name(d, name, markers, res, case, 'input', l2t=conv)
+        res.label('history:other-converter-configured')
     # (b)
     conv = LatexNodes2Text()
     conv.set_tex_input_directory(d, strict_input=True)
